@@ -70,6 +70,7 @@ class State:
         self.removed_duplicate = 0
         self.used_currents = []
         self.reused_objects = 0
+        self.strict_aborts = 0
 
     @property
     def model(self):  # names currently present (with repetitions)
@@ -297,6 +298,36 @@ def apply_op(state, op):
             adopt = has_repeated_ids(op["expr"])
             before = snapshot(net)
             state.used_currents.append((cur, co, flag, op["expr"]))
+            if op.get("strict"):
+                # the caller runs with warnings turned into errors (python -W error): the
+                # "name already taken" warning then aborts the add, which must leave no trace
+                try:
+                    with warnings.catch_warnings():
+                        warnings.simplefilter("error")
+                        net.add_constraint(cur, op["limit"], name=op["name"])
+                    aborted = False
+                except UserWarning:
+                    aborted = True
+                except Exception:
+                    if not adopt:
+                        raise
+                    aborted = True
+                if aborted:
+                    require(same(before, snapshot(net)), "rejected_add_changed_state", lambda: "an add_constraint aborted by a warning-as-error changed the network: %d limits, names %r, matrix rows %r" % (len(net.magnitudes), net.constraint_index, None if net.constraint_matrix is None else len(net.constraint_matrix)))
+                    state.rejected += 1
+                    state.strict_aborts += 1
+                    return
+                op = dict(op, strict=False)
+                # fall through: the add went through, judge it like any other
+                got_name = new_name_after_add(state, before_names)
+                row = row_of(co, state.stations)
+                if adopt:
+                    pos = [k for k, nm in enumerate(net.constraint_index) if nm == got_name and float(net.magnitudes[k]) == float(op["limit"])]
+                    require(bool(pos), "limit_of_row", lambda: "no row named %r with limit %r after add" % (got_name, op["limit"]))
+                    row = list(np.asarray(net.constraint_matrix, dtype=float)[pos[-1]])
+                state.entries.append({"name": got_name, "limit": op["limit"], "row": row})
+                state.adds += 1
+                return
             try:
                 net.add_constraint(cur, op["limit"], name=op["name"])
             except Exception:
@@ -436,7 +467,9 @@ def apply_op(state, op):
                 state.linear_queries += 1
         elif kind == "json":
             # continue the history on a network restored from its JSON dump
-            restored = ChargingNetwork.from_json(net.to_json())
+            from ..scenario import json_roundtrip
+
+            restored, _ = json_roundtrip(net, ChargingNetwork, op.get("via", "string"))
             state.net = restored
             state.json += 1
         else:  # pragma: no cover
@@ -470,6 +503,8 @@ def labels_of(state, log):
         labs.append("removed_one_of_two_equally_named")
     if state.reused_objects:
         labs.append("current_object_added_again")
+    if state.strict_aborts:
+        labs.append("add_aborted_by_warning_as_error")
     if state.json:
         labs.append("json_roundtrip")
     if state.linear_queries:
@@ -526,7 +561,8 @@ class ConstraintMachine(LoggedMachine):
         elif how == "collide" and self.state.model:
             name = data.draw(st.sampled_from(sorted(set(self.state.model))))  # stored under "<name>_v2"
         reuse = data.draw(st.sampled_from([None, None, None, 0, 1, 2, 5])) if self.state.used_currents else None
-        self.do({"op": "add", "name": name, "limit": limit, "expr": data.draw(exprs(self.ids())), "reuse_object": reuse})
+        strict = how == "collide" and data.draw(st.booleans())
+        self.do({"op": "add", "name": name, "limit": limit, "expr": data.draw(exprs(self.ids())), "reuse_object": reuse, "strict": strict})
 
     @precondition(lambda self: len(self.state.model) >= 1)
     @rule(data=st.data(), limit=st.sampled_from([7.0, 99.0]))
@@ -578,9 +614,9 @@ class ConstraintMachine(LoggedMachine):
             self.do({"op": "remove", "k": 0, "unknown": False, "name": dup[0]})
 
     @precondition(lambda self: self.state.json < 2 and len(self.state.stations) >= 1)
-    @rule()
-    def json_roundtrip(self):
-        self.do({"op": "json"})
+    @rule(via=st.sampled_from(["string", "string", "path", "buffer"]))
+    def json_roundtrip(self, via):
+        self.do({"op": "json", "via": via})
 
 
 def subchecks(tier):
@@ -591,7 +627,7 @@ def subchecks(tier):
             quick=400,
             thorough=40000,
             steps=25,
-            floors={"json_roundtrip": 0.1, "linear_query": 0.05, "remove_or_update_after_two_adds": 0.134, "scalar_multiple_inside_sum": 0.128, "subset_query": 0.101, "failed_add": 0.099, "removed_one_of_two_equally_named": 0.1, "current_object_added_again": 0.1},
+            floors={"json_roundtrip": 0.1, "linear_query": 0.05, "remove_or_update_after_two_adds": 0.134, "scalar_multiple_inside_sum": 0.128, "subset_query": 0.101, "failed_add": 0.099, "removed_one_of_two_equally_named": 0.1, "current_object_added_again": 0.1, "add_aborted_by_warning_as_error": 0.03},
         )
     ]
 
